@@ -106,7 +106,7 @@ def make_fake_chunks(sg, cover, linked):
     return CoverChunks
 
 
-def real_cover_case(n, adj, cover, dtype='d'):
+def real_cover_case(n, adj, cover, dtype='d', want_raw=True):
     """Run the real merge + renumbering on (graph, cover).  Returns (raw, final) observation dicts."""
     sg = sg_module()
     linked = {frozenset(p) for p in adj}
@@ -115,12 +115,13 @@ def real_cover_case(n, adj, cover, dtype='d'):
     fake = make_fake_chunks(sg, cover, linked)
     raw = fin = None
     try:
-        ch = fake(ra, dec, 2.0)
+        ch = fake(ra, dec, 2.0) if want_raw else None
     except Exception as ex:
         raise core.MachineryError('cover-layout chunks object could not be constructed: %r' % (ex,))
     try:
-        r = ch.friendsoffriends(ra, dec, 0.5)
-        raw = {'ig': tolist(r[0]), 'mult': tolist(r[1]), 'first': tolist(r[2]), 'next': tolist(r[3]), 'ng': int(r[4])}
+        if want_raw:
+            r = ch.friendsoffriends(ra, dec, 0.5)
+            raw = {'ig': tolist(r[0]), 'mult': tolist(r[1]), 'first': tolist(r[2]), 'next': tolist(r[3]), 'ng': int(r[4])}
     except Exception as ex:
         if harness_fault(ex):
             raise core.MachineryError('exception inside harness-built objects (cover replay): %r' % (ex,))
@@ -712,12 +713,13 @@ def run(ctx):
         cover = [list(ch) for ch in c['cover']]
         efin, eraw = proj(exp['fin']), proj(exp['raw'])
         cdt = COVER_DTYPES[ncase % len(COVER_DTYPES)]
-        raw, fin = real_cover_case(n, adj, cover, cdt)
+        want_raw = ctx.quick or ncase % 4 == 0      # the direct friendsoffriends call is a diagnostic only
+        raw, fin = real_cover_case(n, adj, cover, cdt, want_raw)
         ctx.evaluated(1, 'replay-cover')
         ctx.validated()
         if adj and len(cover) > 1:
             ctx.nontriv((n, tuple(map(tuple, adj)), tuple(map(tuple, cover))))
-        rawsame = same(raw, eraw) and raw.get('ng') == eraw['ng']
+        rawsame = (raw is None) or (same(raw, eraw) and raw.get('ng') == eraw['ng'])
         if not rawsame:
             nraw_diff += 1
         if ncase in (1, 700, 4000):
@@ -748,10 +750,10 @@ def run(ctx):
         sets = make_sets(rng, 400, 48)
         sweep, missing = make_sweep(rng, 60, True)
     else:
-        sets = make_sets(rng, 2500, 70, nbig=40, bigmax=260)
+        sets = make_sets(rng, 2000, 70, nbig=40, bigmax=260)
         sweep, missing = make_sweep(rng, 400, False)
     sets += sweep
-    sets += make_dtype_sets(rng, 45 if ctx.quick else 160)
+    sets += make_dtype_sets(rng, 45 if ctx.quick else 120)
     recs, kept = [], []
     skipped = 0
     for s in sets:
